@@ -226,8 +226,13 @@ func (r *c18Run) exec(op c18Op) {
 	case "deploy":
 		n := len(r.contracts)
 		ch.fundCollector(big.NewInt(1_000_000_000_000_000_000)) // the helper's transaction is refunded its unused gas from the collector
-		addr, err := erc20keeper.DeployContract(ch.cur(), a.EvmKeeper, a.FeeMarketKeeper, ch.user, tests.NewSigner(ch.priv),
-			fmt.Sprintf("Token%d", n), fmt.Sprintf("TK%d", n), uint8(6*(n%4)))
+		var addr common.Address
+		err := Try(ch.cur(), func(c sdk.Context) error { // a panic in a post-transaction hook rejects the transaction
+			var err error
+			addr, err = erc20keeper.DeployContract(c, a.EvmKeeper, a.FeeMarketKeeper, ch.user, tests.NewSigner(ch.priv),
+				fmt.Sprintf("Token%d", n), fmt.Sprintf("TK%d", n), uint8(6*(n%4)))
+			return err
+		})
 		if err == nil {
 			r.contracts = append(r.contracts, addr)
 		}
@@ -281,6 +286,13 @@ func (r *c18Run) exec(op c18Op) {
 			sh = sdkmath.LegacyOneDec()
 		}
 		err := ch.send(&csrtypes.MsgUpdateParams{Authority: c18Gov, Params: csrtypes.NewParams(op.A%5 != 4, sh)})
+		if err == nil {
+			// governance messages run at the end of a block; the next block's BeginBlock deploys the Turnstile
+			// before any transaction can reach the csr hook
+			err = Try(ch.cur(), func(c sdk.Context) error {
+				return csr.NewAppModule(a.AppCodec(), a.CSRKeeper, a.AccountKeeper).BeginBlock(c)
+			})
+		}
 		r.count(op, err)
 	case "csr-deploy":
 		ts, found := a.CSRKeeper.GetTurnstile(ch.cur())
@@ -288,7 +300,12 @@ func (r *c18Run) exec(op c18Op) {
 			r.e.Stats.Count("op:csr-deploy:no-turnstile")
 			return
 		}
-		addr, err := a.CSRKeeper.DeployContract(ch.cur(), c18LoadCsrContract(), ts)
+		var addr common.Address
+		err := Try(ch.cur(), func(c sdk.Context) error {
+			var err error
+			addr, err = a.CSRKeeper.DeployContract(c, c18LoadCsrContract(), ts)
+			return err
+		})
 		if err == nil {
 			r.csrc = append(r.csrc, addr)
 		}
@@ -1079,6 +1096,7 @@ func runC18(e *Env) {
 			switch {
 			case c == 0:
 				k.Stream = "empty"
+				k.Ops = []c18Op{}
 			case c%5 == 1:
 				k.Stream = "sparse"
 				k.Ops = e.c18GenOps("sparse", 3+e.Pick(10))
@@ -1184,7 +1202,7 @@ func runC18(e *Env) {
 			bads = append(bads, p.badDoc(d1, bd, e.Stats))
 		}
 		ictx := App("mkICtx", Z(TimeNs(ch.now)), "0", Z(bonded.BigInt()))
-		body := App("mkCase", ictx, e1, c18Bools(valid), B(imported), e2, c18Bools(raw), p.probes(q), q1, q2, Z(prov2), L(bads))
+		body := App("mkCase", ictx, e1, c18Bools(valid), B(imported), e2, c18Bools(raw), p.probes(q), q1, q2, Z(prov2), L(bads), Zi(int64(len(k.Ops)-1)))
 		term := "(" + strings.Join(p.defs, "") + body + ")"
 		e.AddCase("check_case", term, k)
 		// ----- statistics -----
